@@ -73,6 +73,8 @@ TARGETED = [
     (0, 4, "random", "used"), (0, 2, "random", "used"), (0, 1, "random", "used"), (0, 4, "random", "unused"), (0, 8, "bitrep", "nearrep"),
     (4, 8, "binalpha", "none"), (6, 8, "binalpha_gray", "none"), (4, 16, "binalpha", "none"), (6, 16, "binalpha", "none"), (4, 8, "banded_key", "none"),
     (3, 8, "fewcolors", "none"), (3, 4, "random", "none"), (3, 8, "gray", "none"), (3, 2, "random", "none"), (3, 1, "random", "none"),
+    (4, 16, "nearalpha", "none"), (6, 16, "nearalpha", "none"), (4, 8, "nearalpha", "none"), (6, 8, "nearalpha", "none"),
+    (6, 16, "nearalpha", "none"), (4, 16, "nearalpha", "none"),
 ]
 
 
